@@ -255,16 +255,28 @@ func rulePredictorTable(c *eng.Ctx) {
 		c.Undec(R, "filters.applyPredictor", token.NoPos, "anchor not found")
 		return
 	}
-	pred := fn.Params[1]
+	// the predictor value: what is passed on to the PNG decoder as its predictor argument (the dispatch may have
+	// been inlined into its caller, so it need not be a parameter of this function)
+	var pred ssa.Value
+	hosted := eng.FuncName(fn) != "internal/filters.applyPredictor"
+	if pngs := eng.CallsNamed(fn, false, "internal/filters.applyPNGPredictor"); len(pngs) == 1 && len(pngs[0].Common().Args) > 1 {
+		pred = pngs[0].Common().Args[1]
+	} else if len(fn.Params) > 1 {
+		pred = fn.Params[1]
+	}
+	if pred == nil {
+		c.Viol(R, "filters.applyPredictor#predictor 10..15 -> PNG", fn.Pos(), "the PNG predictors are no longer dispatched")
+		return
+	}
 	cmpK := func(f eng.Fact, op token.Token, k int64) bool {
 		o, x, y, ok := f.Cmp()
 		if !ok {
 			return false
 		}
-		if kk, isC := eng.ConstInt(y); isC && x == ssa.Value(pred) && o == op && kk == k {
+		if kk, isC := eng.ConstInt(y); isC && eng.SameValue(x, pred) && o == op && kk == k {
 			return true
 		}
-		if kk, isC := eng.ConstInt(x); isC && y == ssa.Value(pred) && eng.Swap(o) == op && kk == k {
+		if kk, isC := eng.ConstInt(x); isC && eng.SameValue(y, pred) && eng.Swap(o) == op && kk == k {
 			return true
 		}
 		return false
@@ -288,7 +300,7 @@ func rulePredictorTable(c *eng.Ctx) {
 				}
 			}
 			// data argument is the incoming data
-			if calls[0].Common().Args[0] != ssa.Value(fn.Params[0]) {
+			if !hosted && calls[0].Common().Args[0] != ssa.Value(fn.Params[0]) {
 				ok = false
 			}
 		}
@@ -304,6 +316,23 @@ func rulePredictorTable(c *eng.Ctx) {
 		}
 		if nn, known := eng.ErrValueNonNil(r.Results[1]); known && nn && eng.IsNilConst(r.Results[0]) {
 			errOK = true
+		}
+	}
+	if hosted {
+		// inlined form: predictor 1 skips the dispatch (every decoder call is reached only with predictor != 1),
+		// and an error is constructed where neither decoder applies
+		idOK = true
+		for _, callee := range []string{"internal/filters.applyTIFFPredictor2", "internal/filters.applyPNGPredictor"} {
+			for _, ci := range eng.CallsNamed(fn, false, callee) {
+				if !eng.GuardedBy(fn, ci.Block(), func(f eng.Fact) bool { return cmpK(f, token.NEQ, 1) }) {
+					idOK = false
+				}
+			}
+		}
+		for _, ci := range eng.Calls(fn, false, func(n string, _ ssa.CallInstruction) bool { return n == "fmt.Errorf" || n == "errors.New" }) {
+			if eng.GuardedBy(fn, ci.Block(), func(f eng.Fact) bool { return cmpK(f, token.NEQ, 2) }) {
+				errOK = true
+			}
 		}
 	}
 	c.Check(idOK, R, "filters.applyPredictor#1->identity", fn.Pos(), "predictor 1 returns the data unchanged", "predictor 1 is no longer the identity")
